@@ -870,7 +870,87 @@ def r5_closure(ctx, repo):
     ctx.check(ok and not others, "R5", "Job.evaluate", where(repo.module("job"), job), "the only vector write is the re-sample from gen_vector(parameters)", key="job-resample")
 
 
+def r6_cached_buffers(ctx, repo):
+    """a memoised function hands every caller the SAME object; a consumer that changes its argument in place (x *= w,
+    x += lo, x[i] = .., x.sort()) then changes what the next caller gets: the second design is scaled from the first
+    design instead of from the unit sample"""
+    CACHES = ("lru_cache", "cache", "functools.lru_cache", "functools.cache", "memoize", "memoized")
+    cached = {}
+    funcs = {}
+    for mod in repo.modules.values():
+        if mod.name.startswith("test"):
+            continue
+        for f in mod.functions.values():
+            funcs.setdefault(f.name, []).append((mod, f))
+            for d in f.decorator_list:
+                dn = access_path(d.func) if isinstance(d, ast.Call) else access_path(d)
+                if dn in CACHES:
+                    rets = [r.value for r in ast.walk(f) if isinstance(r, ast.Return) and r.value is not None]
+                    if rets and not all(isinstance(r, (ast.Constant, ast.Tuple)) for r in rets):
+                        cached[f.name] = (mod, f)
+    if not cached:
+        ctx.holds("R6", "memoised generators", "", "no memoised function in the package: every generator call builds its own sample")
+        return
+
+    def mutated_params(f):
+        ps = func_params(f)
+        out = {}
+        for n in ast.walk(f):
+            if isinstance(n, ast.AugAssign) and isinstance(n.target, ast.Name) and n.target.id in ps:
+                # in place for arrays/lists unless the name was rebound to a fresh object before
+                rebound = any(isinstance(a, ast.Assign) and any(isinstance(t, ast.Name) and t.id == n.target.id for t in a.targets) and a.lineno < n.lineno for a in ast.walk(f))
+                if not rebound:
+                    out.setdefault(n.target.id, n)
+            elif isinstance(n, (ast.Assign, ast.AugAssign)):
+                for t in (n.targets if isinstance(n, ast.Assign) else [n.target]):
+                    if isinstance(t, ast.Subscript) and isinstance(t.value, ast.Name) and t.value.id in ps:
+                        out.setdefault(t.value.id, n)
+            elif isinstance(n, ast.Call) and isinstance(n.func, ast.Attribute) and isinstance(n.func.value, ast.Name) and n.func.value.id in ps \
+                    and n.func.attr in ("sort", "append", "extend", "insert", "pop", "clear", "reverse", "fill", "resize", "put", "itemset"):
+                out.setdefault(n.func.value.id, n)
+        return out
+    bad = None
+    n_sites = 0
+    for mod in repo.modules.values():
+        if mod.name.startswith("test"):
+            continue
+        for f in list(mod.functions.values()) + [m for c in mod.classes.values() for m in c.methods.values()]:
+            T = None
+            for c in [c for c in ast.walk(f) if isinstance(c, ast.Call)]:
+                callee = (access_path(c.func) or "").split(".")[-1]
+                if callee not in funcs:
+                    continue
+                for tmod, tf in funcs[callee]:
+                    mp = mutated_params(tf)
+                    if not mp:
+                        continue
+                    ps = func_params(tf)
+                    for k, a in list(enumerate(c.args)) + [(ps.index(kw.arg), kw.value) for kw in c.keywords if kw.arg in ps]:
+                        if k >= len(ps) or ps[k] not in mp:
+                            continue
+                        if T is None:
+                            T = Terms(f)
+                        src = T.expand(a, at=next((st_ for st_ in stmts_of(f) if any(x is c for x in ast.walk(st_))), None)) if not isinstance(a, ast.Call) else a
+                        inner = [x for x in ast.walk(src) if isinstance(x, ast.Call) and (access_path(x.func) or "").split(".")[-1] in cached]
+                        direct = isinstance(src, ast.Call) and (access_path(src.func) or "").split(".")[-1] in cached
+                        if direct:
+                            n_sites += 1
+                            cm, cf = cached[(access_path(src.func) or "").split(".")[-1]]
+                            bad = bad or (mod, c, "%s passes the result of the memoised %s() straight to %s(), which changes that argument in place (%s): the cache now holds the scaled "
+                                          "design, and the next call with the same arguments starts from it instead of from the unit sample - its points leave the box"
+                                          % (f.name, cf.name, tf.name, text(mp[ps[k]]).split("\n")[0]))
+                        elif inner:
+                            n_sites += 1
+    if bad:
+        ctx.violated("R6", "memoised generators", where(bad[0], bad[1]), bad[2])
+    else:
+        ctx.holds("R6", "memoised generators", "", "results of the memoised function(s) %s are not handed to a function that changes its argument in place (%d use(s) looked at)"
+                  % (", ".join(sorted(cached)), n_sites))
+
+
 def run(ctx):
+    ctx.rule("R6", "the unit sample a generator scales is its own: a memoised sample is never changed in place by its consumer")
+    r6_cached_buffers(ctx, ctx.repo)
     for rid, doc in (("R1", "clip within [lo, hi]"), ("R2", "SBX / mutators: parent coordinate or clipped to the same parameter's bounds; one element per parameter"),
                      ("R3", "generators unit-affine + nearest rounding; builders select from bound-derived levels"),
                      ("R4", "update_position leaves both bound facts on every path"), ("R5", "closure over the five algorithms and Job.evaluate")):
